@@ -142,8 +142,8 @@ PROPS = {
         "module": "Cuke.Props.C07",
         "namespace": "Cuke.C07",
         "families": [("sched.run", 1000, 40000), ("sched.lazy", 600, 30000)],
-        "segments": {"sched.run": [0, 11]},
-        "segment_names": ['Q', 'c07'],
+        "segments": {"sched.run": [0, 1, 5, 11]},
+        "segment_names": ['Q', 'K', 'I', 'c07'],
         "modelled_not_verified": ["futures crate: FuturesUnordered, mpsc channels, join/select (the plumbing is checked by comparing sent and received event sequences)", "the async executor (hand-polled by the harness) and Instant / thread::sleep (clock readings are environment inputs of the model)", "HashMap iteration order at finish_all (model: any order inside the rule group and the feature group)"],
     },
     "C08": {
